@@ -406,6 +406,18 @@ inline void finishTopology(Model& M, vh::Rng& g, bool allowEuler = true, bool al
     M.system.realizeModel(M.state);
 }
 
+// true if some body-fixed-XYZ Euler sequence (Gimbal, Bushing always; Ball, Free, Ellipsoid, LineOrientation, FreeLine in Euler
+// mode) is close to its singular configuration |cos q1| < 0.2 (DESIGN §4.1): finite differences and N^-1 are ill-conditioned there
+inline bool nearEulerSingularity(const Model& M) {
+    const State& s = M.state; const bool euler = M.matter.getUseEulerAngles(s);
+    for (int b = 1; b < M.nb(); ++b) {
+        const int t = M.mtype[b];
+        const bool seq = t == mGimbal || t == mBushing || (euler && (t == mBall || t == mFree || t == mEllipsoid || t == mLineOrientation || t == mFreeLine));
+        if (seq && std::abs(std::cos(s.getQ()[(int)M.bodies[b].getFirstQIndex(s) + 1])) < 0.2) return true;
+    }
+    return false;
+}
+
 // one D tag per body: mobilizer type and direction (counted into the evidence)
 inline void tagBodies(const Model& M) { for (int b = 1; b < M.nb(); ++b) vh::D(std::string("mob.") + mobName(M.mtype[b]) + (M.reversed[b] ? ".rev" : "")); }
 
